@@ -161,7 +161,7 @@ def run(ctx):
             if z["name"] in shipped_ids and shipped_ids[z["name"]] != z["id"]:
                 ctx.violation("fresh-id:%s:%s" % (scope, z["name"]), {"zone": z["name"]}, "freshly compiled id differs from the shipped id")
     # generated: hash_name == djb2 on arbitrary names; collision detection fires iff two names collide
-    pos = [0, 0]
+    pos = [0, 0, 0]
 
     @hypothesis.seed(ctx.seed)
     @settings(max_examples=3000 if ctx.tier == "thorough" else 600, deadline=None, database=None, phases=[Phase.generate],
@@ -180,7 +180,11 @@ def run(ctx):
             c1, c2 = chr(65 + k % 20), chr(98 + (k // 20) % 20)
             a, b = base + c1 + c2, base + chr(ord(c1) + 1) + chr(ord(c2) - 33)
             assert djb2(a) == djb2(b) and a != b
-            names += [a, b]
+            # the colliding pair goes to drawn positions, including the very first
+            names.insert(k % (len(names) + 1), a)
+            names.insert((k // 7) % (len(names) + 1), b)
+            if (k % (len(names) - 1) == 0) or names[0] in (a, b):
+                pos[2] += 1
         hs = [djb2(n) for n in names]
         has_collision = len(set(hs)) != len(set(names))
         tr = T.Transformer({}, {}, {}, "extended", 2000, 2050, 60, 900, True)
@@ -200,6 +204,7 @@ def run(ctx):
     gen()
     ctx.count("hash_cases", pos[0])
     ctx.count("collision_positive_cases", pos[1])
+    ctx.count("collision_cases_with_first_name_involved", pos[2])
     if pos[1] < 20:
         raise vt.HarnessError("too few collision-positive cases: %d" % pos[1])
     ctx.nontrivial = len(nt)
